@@ -143,11 +143,13 @@ Lemma command_reserve_spec t max r :
       /\ (1 <= id <= reserve_max max)%N /\ max <> 0%N
       /\ m_lookup (entries t) id = None
   | _ => reserve_arm t max r = Ok (t', None) /\ entries t' = entries t
+         /\ (max = 0%N \/ ids_exhausted (entries t) (reserve_max max) = true)
   end.
 Proof.
   unfold reserve_arm, command_reserve.
   destruct (N.eqb_spec max 0) as [->|Hmax].
-  { exists t, RNone. cbn [bind]. repeat split; discriminate || reflexivity. }
+  { exists t, RNone. cbn [bind]. split; [reflexivity|]. split; [discriminate|].
+    split; [reflexivity|]. split; [reflexivity|left; reflexivity]. }
   destruct t as [tb|].
   2:{ eexists. eexists. split; [reflexivity|]. split; [discriminate|].
       cbn [bind slots typed]. unfold put. cbn [length repeat Nat.ltb Nat.leb firstn skipn app].
@@ -172,19 +174,21 @@ Proof.
         apply no_live_id_above. intros x Hx. unfold lv in Hx. apply filter_In in Hx.
         destruct (maxid_ge (slots tb) 0%N) as [_ M]. pose proof (M x (proj1 Hx)). fold mid in H. lia. }
     destruct Hid as [R1 R2].
-    destruct (typed tb) eqn:Ety.
-    + eexists. exists RNone. split; [reflexivity|]. split; [discriminate|].
-      split; [reflexivity|]. unfold entries at 1, tslots. cbn [slots]. exact Een.
-    + eexists. eexists. split; [reflexivity|]. split; [discriminate|].
-      cbn [bind slots typed]. rewrite put_at. cbn [bind].
-      eexists. split; [reflexivity|].
-      split.
-      { unfold entries at 1, tslots. cbn [slots]. rewrite entries_app. cbn [flat_map].
-        rewrite entry_mk, app_nil_r, Een. symmetry. apply Permutation_cons_append. }
-      split; [exact R1|]. split; [exact Hmax|].
-      apply m_lookup_notin. rewrite <- Een. apply no_live_id_keys. exact R2.
+    eexists. eexists. split; [reflexivity|]. split; [discriminate|].
+    cbn [bind slots typed]. rewrite put_at. cbn [bind].
+    eexists. split; [reflexivity|].
+    split.
+    { unfold entries at 1, tslots. cbn [slots]. rewrite entries_app. cbn [flat_map].
+      rewrite entry_mk, app_nil_r, Een. symmetry. apply Permutation_cons_append. }
+    split; [exact R1|]. split; [exact Hmax|].
+    apply m_lookup_notin. rewrite <- Een. apply no_live_id_keys. exact R2.
   - eexists. exists RNone. split; [reflexivity|]. split; [discriminate|].
-    split; [reflexivity|]. unfold entries at 1, tslots. cbn [slots]. exact Een.
+    split; [reflexivity|]. split; [unfold entries at 1, tslots; cbn [slots]; exact Een|].
+    right. apply ids_exhausted_intro. intros k Hk.
+    destruct (mx <=? mid)%N; [|discriminate].
+    destruct (find_free_none _ _ _ _ Ef k Hk) as (p & s & Ec').
+    rewrite <- Een, (lookup_entries lv k 0), Ec'.
+    destruct (cmd_find_live_hdl _ _ _ _ _ Ec') as [h ->]. reflexivity.
   - exfalso.
     destruct (mx <=? mid)%N; [|discriminate].
     apply (find_free_fuel (S (length lv)) lv 1%N mx []) in Ef; [exact Ef|constructor|intros k []|].
